@@ -54,6 +54,9 @@ CLAIMS = {
  'C10': dict(cat='other', ref='DESIGN.md section 9.7 (C10 as built)',
    text='PARTIAL claim (the sequential, per-call part of the property): each of the eleven threadsafe_* wrappers is proved to take the detector\'s own mutex exactly once before touching the detector, to reach every detector operation with the mutex held, never to take it while held (non-recursive: the hang), to return with it released, and to ask the detector exactly what its single-threaded twin asks; turnOnThreadSafeNewDeleteOverloads is proved to install the wrapper in all eleven slots; a misuse report raised inside a wrapper is proved to release the mutex before its non-local exit and to release nothing when nobody holds it. Scope-exit destructor calls of the RAII lock are produced by emitter rule R17. The schedule-quantified part (no data race, linearisable accounting over all interleavings) is NOT decided by any obligation: it is an argument from the proved lock discipline plus POSIX mutex semantics.',
    note='partial claim; trusted: POSIX mutex semantics, that all detector state is reached only through the eleven entry points in this mode, exception unwinding runs destructors; undecided clauses in contracts/C10.undecided.txt'),
+ 'C19': dict(cat='other', ref='DESIGN.md section 9.8 (C19 as built)',
+   text='PARTIAL claim "forwarder wiring": every entry point of the three C function tables of MockSupport_c.cpp (about 100 one-line forwarders) is proved to reach exactly the C++ method of the same name and type family (mapping derived from the names in the public headers by tools/gen_C19.py, not from the forwarder bodies) on the current object, once, with its arguments unchanged at full width, to chain the right static current-object pointer and to return the right table; the OrDefault entry points return the default exactly when there is no return value; the conversion to the C tagged union gives every type name its tag, union member and getter; every slot of the three tables holds the forwarder of its name. That the two interfaces then produce the same verdict, failure text and output bytes is the mock engine (C08/C09), not decided here. One open finding (known_findings.json): the return-value slots shared between MockActualCall_c and MockSupport_c consult one fixed object each.',
+   note='partial claim; trusted: virtual dispatch reaches the override of the dynamic type; engine equivalence; undecided clauses in contracts/C19.undecided.txt; OrDefault proofs assume the coherent state (current actual call = last actual call of the current MockSupport)'),
  'C20': dict(cat='other', ref='DESIGN.md section 4, C20',
    text='PARTIAL claim: printEscaped proved to emit exactly one correct chunk per input byte for strings of any length, plus the decoding lemma; balance of suite/test messages is the C02 registry loop (bounded); that every writer passes every value through printEscaped is undecided.',
    note='partial claim; undecided clauses in contracts/C20.undecided.txt'),
@@ -61,7 +64,6 @@ CLAIMS = {
 NOT_APPLICABLE = {
  'C08': 'verdict exactness over all mock call histories: the mock engine is C++ object graphs with value-semantics temporaries and destructor-held ownership; CBMC cannot parse it, the C lowering stops at destructors, and no per-function contract implies the history-level iff',
  'C16': 'well-formedness of the emitted XML is a grammar-membership property of printf-formatted text assembled from C++ string temporaries; no function contract states it and there is no XML judge in the verifier',
- 'C19': 'a relational equivalence between two interfaces over all scenarios, both built on the C08 mock engine that is out of reach',
 }
 PENDING = 'contracts not yet written in this round (planned claim, see DESIGN.md section 4); not claimed until a check exists'
 
